@@ -478,11 +478,16 @@ func MultipleOfNativeType(path, in string, val interface{}, multipleOf float64) 
 			// a non-integral factor must not be truncated: check as general numbers
 			return MultipleOf(path, in, float64(value), multipleOf)
 		}
+		if multipleOf >= maxInt64AsFloat || multipleOf < minInt64AsFloat {
+			// a factor outside the range of int64 cannot be converted: check as general numbers
+			return MultipleOf(path, in, float64(value), multipleOf)
+		}
 		return MultipleOfInt(path, in, value, int64(multipleOf))
 	case reflect.Uint, reflect.Uint8, reflect.Uint16, reflect.Uint32, reflect.Uint64:
 		value := valueHelp.asUint64(val)
-		if multipleOf != math.Trunc(multipleOf) {
-			// a non-integral factor must not be truncated: check as general numbers
+		if multipleOf != math.Trunc(multipleOf) || multipleOf <= 0 || multipleOf >= maxUint64AsFloat {
+			// a non-integral factor must not be truncated, a factor that is not positive or lies beyond
+			// the range of uint64 cannot be converted: check as general numbers
 			return MultipleOf(path, in, float64(value), multipleOf)
 		}
 		return MultipleOfUint(path, in, value, uint64(multipleOf))
